@@ -163,38 +163,27 @@ func ruleCONC1(w *World) []Ob {
 // goroutine closure of F started once (go not in a loop), nobody else sends on the channel, and
 // after any send no further send on it is reachable (so at most one send ≤ capacity).
 func boundedBufferedSend(p *Prog, s *ssa.Send, sends []sendSite) (bool, string) {
-	mc, ok := resolve(s.Chan).(*ssa.MakeChan)
+	mc, ok := resolveArg(p, s.Chan).(*ssa.MakeChan)
 	if !ok {
-		return false, "the channel is not a make(chan) visible in the enclosing function (it is " + describeValue(s.Chan) + ")"
+		return false, "the channel is not a make(chan) of the function that starts the sender (it is " + describeValue(s.Chan) + ")"
 	}
 	n, isConst := constInt(mc.Size)
 	if !isConst || n < 1 {
 		return false, "the channel is unbuffered"
 	}
 	g := s.Parent()
-	if g.Parent() != mc.Parent() {
-		return false, "the sender is not a goroutine closure of the function that makes the channel"
+	gi := goStartOf(p, g)
+	if gi == nil {
+		return false, "the sender is not a function started by exactly one go statement"
 	}
-	mk := makeClosureOf(g)
-	if mk == nil {
-		return false, "sender closure not found"
+	if gi.Parent() != mc.Parent() {
+		return false, "the sender is not started by the function that makes the channel"
 	}
-	started := 0
-	for _, r := range *mk.Referrers() {
-		if gi, ok := r.(*ssa.Go); ok && gi.Common().Value == mk {
-			if inLoop(gi) {
-				return false, "the sending goroutine is started in a loop"
-			}
-			started++
-		} else if _, isDbg := r.(*ssa.DebugRef); !isDbg {
-			return false, "the sending closure is used other than as a single go statement"
-		}
-	}
-	if started != 1 {
-		return false, "the sending closure is not started by exactly one go statement"
+	if inLoop(gi) {
+		return false, "the sending goroutine is started in a loop"
 	}
 	for _, o := range sends {
-		if resolve(o.ch) == ssa.Value(mc) && o.fn != g {
+		if resolveArg(p, o.ch) == ssa.Value(mc) && o.fn != g {
 			return false, "another function (" + p.FuncID(o.fn) + ") also sends on this channel"
 		}
 	}
@@ -204,7 +193,7 @@ func boundedBufferedSend(p *Prog, s *ssa.Send, sends []sendSite) (bool, string) 
 			if ci, ok := r.(ssa.CallInstruction); ok {
 				for _, a := range ci.Common().Args {
 					if a == ssa.Value(ld) {
-						if _, isB := ci.Common().Value.(*ssa.Builtin); !isB {
+						if _, isB := ci.Common().Value.(*ssa.Builtin); !isB && ci != ssa.CallInstruction(gi) {
 							return false, "the channel is passed to " + calleeString(ci.Common()) + ", which could send on it"
 						}
 					}
@@ -215,7 +204,7 @@ func boundedBufferedSend(p *Prog, s *ssa.Send, sends []sendSite) (bool, string) 
 	// after each send in g, no send on mc reachable
 	var mine []ssa.Instruction
 	for _, o := range sends {
-		if o.fn == g && resolve(o.ch) == ssa.Value(mc) {
+		if o.fn == g && resolveArg(p, o.ch) == ssa.Value(mc) {
 			mine = append(mine, o.instr)
 		}
 	}
@@ -303,7 +292,7 @@ func ruleCONC2(w *World) []Ob {
 			pos := p.InstrPos(mc)
 			var mine []closeSite
 			for _, c := range closes {
-				if resolve(c.ch) == ssa.Value(mc) {
+				if resolveArg(p, c.ch) == ssa.Value(mc) {
 					mine = append(mine, c)
 					matched[c.instr] = true
 				}
@@ -318,34 +307,18 @@ func ruleCONC2(w *World) []Ob {
 			deferred := false
 			if _, isDefer := c.instr.(*ssa.Defer); isDefer {
 				deferred = true
-			} else if mk := makeClosureOf(g); mk != nil {
+			} else if par := deferredIn(g); par != nil {
 				// close inside a closure that is itself deferred in its parent
-				for _, r := range *mk.Referrers() {
-					if d, ok := r.(*ssa.Defer); ok && d.Common().Value == ssa.Value(mk) {
-						deferred = true
-						g = g.Parent()
-					}
-				}
+				deferred = true
+				g = par
 			}
 			if !deferred {
 				l.bad(fid, construct, pos, "close is not deferred: a panic or early return in the owner would skip it (or it may run before the senders finish)", "chan")
 				return
 			}
-			if g.Parent() != fn {
-				l.bad(fid, construct, pos, "the closing function "+p.FuncID(g)+" is not a goroutine closure of the function that makes the channel", "chan")
-				return
-			}
-			mk := makeClosureOf(g)
-			isGo := false
-			if mk != nil {
-				for _, r := range *mk.Referrers() {
-					if gi, ok := r.(*ssa.Go); ok && gi.Common().Value == ssa.Value(mk) {
-						isGo = true
-					}
-				}
-			}
-			if !isGo {
-				l.bad(fid, construct, pos, "the function that closes the channel is not started as a goroutine by the maker", "chan")
+			ownerGo := goStartOf(p, g)
+			if ownerGo == nil || ownerGo.Parent() != fn {
+				l.bad(fid, construct, pos, "the closing function "+p.FuncID(g)+" is not a goroutine started (once) by the function that makes the channel", "chan")
 				return
 			}
 			// goroutines started with the channel: must be started inside g with wg discipline
@@ -359,11 +332,11 @@ func ruleCONC2(w *World) []Ob {
 					}
 					passes := false
 					for _, a := range gi.Common().Args {
-						if resolve(a) == ssa.Value(mc) {
+						if resolveArg(p, a) == ssa.Value(mc) {
 							passes = true
 						}
 					}
-					if !passes {
+					if !passes || gi == ownerGo {
 						return
 					}
 					workers++
@@ -378,10 +351,14 @@ func ruleCONC2(w *World) []Ob {
 			}
 			// other closures (besides g and its deferred closure) capturing the channel and sending/closing
 			for _, s := range allSendSites(p) {
-				if resolve(s.ch) != ssa.Value(mc) {
+				if resolveArg(p, s.ch) != ssa.Value(mc) {
 					continue
 				}
 				if s.fn != g && !isAncestor(g, s.fn) {
+					// a worker started from the owner (its WaitGroup discipline is checked above) may send
+					if wg := goStartOf(p, outermost(s.fn)); wg != nil && (wg.Parent() == g || isAncestor(g, wg.Parent())) {
+						continue
+					}
 					problems = append(problems, "send on the channel from "+p.FuncID(s.fn)+", outside the owner goroutine")
 				}
 			}
